@@ -3,7 +3,8 @@
    is a parameter), every IV and every block sequence, decrypting under ANY schedule what was
    encrypted under ANY other schedule, in place or buffer-to-buffer, returns the original blocks.
    CBC/PCBC/IGE need D(E x) = x; CFB/CFB-8/OFB need nothing (E arbitrary). *)
-From BM Require Import BlockModes Spec BlockModes_proofs Spec_proofs RoundTrip_proofs Outcome Cts Cts_mem Cts_spec Cts_cs_proofs Cts_dec_proofs.
+From BM Require Import BlockModes Spec BlockModes_proofs Spec_proofs RoundTrip_proofs Outcome Cts Cts_mem Cts_spec Cts_cs_proofs Cts_dec_proofs
+  Plumbing Toy Ints Ctr Belt Stream Stream_proofs Interp Wrapper_proofs Wrapper_inst Involution_proofs Padded_proofs.
 
 Theorem C01_cbc : forall C : cipher, cipher_wf C -> DE_id C -> forall sched1 sched2 iv cs cs2,
   length iv = c_bs C -> all_len (c_bs C) (map rd_in cs) ->
@@ -68,3 +69,56 @@ Theorem C01_cts : forall (C : cipher), cipher_wf C -> DE_id C -> forall v iv m (
             (msrc m2 = m_out c -> exists p, cts_run C v false iv m2 = Ok p /\ m_out p = concat blocks ++ tail).
 Proof. exact cts_roundtrip_composed. Qed.
 Print Assumptions C01_cts.
+
+(* keystream ciphers (the six CTR flavours, BelT-CTR, OFB): applying the keystream again from the same
+   position -- which is what decryption is -- returns the input; |output| = |input|.  From any reachable
+   wrapper state (the invariants of Wrapper_inst.v), in place or buffer-to-buffer *)
+Theorem C01_ctr : forall cs be (C : cipher) (nonce : list N), cipher_wf C -> c_bs C = cs * length nonce ->
+  forall nb wst (al : bool) (inb outb : list N), CtrInv cs be C nonce nb wst ->
+  length inb = length outb -> (al = true -> inb = outb) -> (N.of_nat (length outb) <= usize_max)%N ->
+  let K := kscore C (SCtr cs be) in
+  fits K (ctr_limit cs) nb (wr_pos wst) (length outb) ->
+  exists w1 out, try_apply K wst al inb outb = Ok (w1, out) /\ length out = length inb /\
+    exists w2, try_apply K wst true out out = Ok (w2, if al then outb else inb).
+Proof. exact ctr_involution. Qed.
+Print Assumptions C01_ctr.
+
+Theorem C01_belt : forall (C : cipher) si, cipher_wf C -> c_bs C = 16 -> (si < pow2 128)%N ->
+  forall nb wst (al : bool) (inb outb : list N), BeltInv C si nb wst ->
+  length inb = length outb -> (al = true -> inb = outb) -> (N.of_nat (length outb) <= usize_max)%N ->
+  let K := kscore C SBelt in
+  fits K belt_limit nb (wr_pos wst) (length outb) ->
+  exists w1 out, try_apply K wst al inb outb = Ok (w1, out) /\ length out = length inb /\
+    exists w2, try_apply K wst true out out = Ok (w2, if al then outb else inb).
+Proof. exact belt_involution. Qed.
+Print Assumptions C01_belt.
+
+Theorem C01_ofb_stream : forall (C : cipher) iv, cipher_wf C -> length iv = c_bs C ->
+  forall nb wst (al : bool) (inb outb : list N), OfbInv C iv nb wst ->
+  length inb = length outb -> (al = true -> inb = outb) -> (N.of_nat (length outb) <= usize_max)%N ->
+  let K := kscore C SOfb in
+  exists w1 out, try_apply K wst al inb outb = Ok (w1, out) /\ length out = length inb /\
+    exists w2, try_apply K wst true out out = Ok (w2, if al then outb else inb).
+Proof. exact ofb_involution. Qed.
+Print Assumptions C01_ofb_stream.
+
+(* padded path: PKCS#7-padded encryption followed by padded decryption returns the message, every length
+   (the padding block is always added: |ct| = |m| + bs - |m| mod bs), each side in place or buffer-to-buffer.
+   Generic over a pair of kinds whose block-level bodies invert each other from the given state ... *)
+Theorem C01_padded : forall (C : cipher), cipher_wf C -> forall ke kd st (al : bool) (inb outb : list N),
+  pair_ok C ke kd st ->
+  length inb + (c_bs C - length inb mod c_bs C) <= length outb -> (al = true -> inb = firstn (length inb) outb) ->
+  exists ct, enc_padded_inout (c_bs C) (bm_single C ke) (bm_blocks C ke) Pkcs7 st al inb outb = Ok ct /\
+             length ct = length inb + (c_bs C - length inb mod c_bs C) /\
+             forall (al2 : bool) (out2 : list N), length out2 = length ct -> (al2 = true -> ct = out2) ->
+               dec_padded_inout (c_bs C) (bm_blocks C kd) Pkcs7 st al2 ct out2 = Ok inb.
+Proof. exact padded_roundtrip. Qed.
+Print Assumptions C01_padded.
+
+(* ... which CBC, PCBC and IGE are, from every IV *)
+Theorem C01_padded_pairs : forall (C : cipher), cipher_wf C -> DE_id C ->
+  (forall iv x, length iv = c_bs C -> pair_ok C KCbcE KCbcD (iv, x)) /\
+  (forall iv x, length iv = c_bs C -> pair_ok C KPcbcE KPcbcD (iv, x)) /\
+  (forall x y, length x = c_bs C -> length y = c_bs C -> pair_ok C KIgeE KIgeD (x, y)).
+Proof. intros C Hw Hd. repeat split; intros; first [now apply cbc_pair_ok | now apply pcbc_pair_ok | now apply ige_pair_ok]. Qed.
+Print Assumptions C01_padded_pairs.
